@@ -27,6 +27,22 @@ CLAIMED = {
              "directly on the implementation to produce concrete failing inputs.",
         design_ref="DESIGN.md 5 C18",
     ),
+    'C10': dict(
+        technique="Coq proof over a hand-transcribed operator model built on coercion functions regenerated "
+                  "from excelutil.py, tied by exhaustive pool differential runs against the real fix-up function",
+        text="Model/Ops.v transcribes excelutil.build_operator_operand_fixup.fixup branch by branch on top of "
+             "Gen/excelutil.v (coerce_to_number, type_cmp_value, is_number, coerce_to_string: re-translated from "
+             "the source every run). Proved for ALL scalar operands: an error operand is returned unchanged, left "
+             "first (13 operators); for any two non-error scalars incl. blank exactly one of <,=,> holds and "
+             "<>,<=,>= are the complements (unbounded strings/numbers; the comparison is defined unless a "
+             "character's case mapping is outside the model); numbers < text < logicals; case-insensitive text "
+             "equality; blank equals 0, \"\" and FALSE; exact integer + - *, true division, x/0 = #DIV/0!, "
+             "logicals/blank as numbers; & on text, integers, logicals, blank. Type closure for every operand "
+             "pair (never raises, never a complex) and transitivity are judged by the oracle over the exhaustive "
+             "pool (~160k triples per quick run), not by a theorem. Correspondence: every (left, op, right) over "
+             "a ~60-value pool, bit-exact.",
+        design_ref="DESIGN.md 5 C10",
+    ),
 }
 
 NOT_YET = "check not built yet in this round (planned: DESIGN.md section 7 lists the build order)"
